@@ -277,4 +277,81 @@ theorem exists_perm_forall₂ {α β γ : Type} (f : α → γ) (g : β → γ) 
     obtain ⟨l, hl, hf⟩ := exists_perm_forall₂ f g l1 (s ++ t) h'
     exact ⟨b :: l, hperm.trans (hl.cons b), Forall2.cons hgb.symm hf⟩
 
+
+theorem find?_of_nodup_map {α β : Type} [BEq β] [LawfulBEq β] (f : α → β) :
+    ∀ (l : List α) (a : α), (l.map f).Nodup → a ∈ l → l.find? (fun x => f x == f a) = some a
+  | [], _, _, h => by simp at h
+  | x :: l, a, hn, h => by
+    rw [List.map_cons, List.nodup_cons] at hn
+    rw [List.find?_cons]
+    by_cases hx : f x = f a
+    · have : (f x == f a) = true := by simp [hx]
+      rw [this]
+      rcases List.mem_cons.mp h with rfl | hm
+      · rfl
+      · exact absurd (hx ▸ List.mem_map_of_mem hm) hn.1
+    · have : (f x == f a) = false := by simp [hx]
+      rw [this]
+      rcases List.mem_cons.mp h with rfl | hm
+      · exact absurd rfl hx
+      · exact find?_of_nodup_map f l a hn.2 hm
+
+def Atom.id (a : Atom) : Ident := (a.resid, a.name)
+
+/-- index of the atom line with a given identity (first such line), 0 if there is none -/
+def keyOf (as : List Atom) (i : Ident) : Int :=
+  match as.find? (fun a => a.id == i) with
+  | some a => a.key
+  | none => 0
+
+/-- the renumbering that carries the indices of `as` to those of `as'` through the identities -/
+def transport (as as' : List Atom) (k : Int) : Int :=
+  match ident as k with
+  | [i] => keyOf as' i
+  | _ => 0
+
+theorem ident_of_mem {l : List Atom} (hk : (l.map (·.key)).Nodup) {a : Atom} (ha : a ∈ l) :
+    ident l a.key = [a.id] := by
+  unfold ident
+  rw [find?_of_nodup_map (fun a => a.key) l a hk ha]
+  rfl
+
+theorem keyOf_of_mem {l : List Atom} (hid : (l.map Atom.id).Nodup) {a : Atom} (ha : a ∈ l) :
+    keyOf l a.id = a.key := by
+  unfold keyOf
+  rw [find?_of_nodup_map Atom.id l a hid ha]
+
+theorem transport_of_mem {as as' : List Atom} (hk : (as.map (·.key)).Nodup) (hid' : (as'.map Atom.id).Nodup)
+    {a b : Atom} (ha : a ∈ as) (hb : b ∈ as') (e : a.id = b.id) : transport as as' a.key = b.key := by
+  unfold transport
+  rw [ident_of_mem hk ha]
+  simp only []
+  rw [e, keyOf_of_mem hid' hb]
+
+
+theorem ids_transport {as as' : List Atom} (hk : (as.map (·.key)).Nodup) (hk' : (as'.map (·.key)).Nodup)
+    (hid' : (as'.map Atom.id).Nodup) :
+    ∀ (ks ks' : List Int), (∀ k ∈ ks, k ∈ as.map (·.key)) → (∀ k ∈ ks', k ∈ as'.map (·.key)) →
+      ks.map (ident as) = ks'.map (ident as') → ks' = ks.map (transport as as')
+  | [], [], _, _, _ => rfl
+  | [], _ :: _, _, _, h => by simp at h
+  | _ :: _, [], _, _, h => by simp at h
+  | k :: ks, k' :: ks', hm, hm', h => by
+    simp only [List.map_cons, List.cons.injEq] at h ⊢
+    obtain ⟨a, ha, rfl⟩ := List.mem_map.mp (hm _ List.mem_cons_self)
+    obtain ⟨b, hb, rfl⟩ := List.mem_map.mp (hm' _ List.mem_cons_self)
+    rw [ident_of_mem hk ha, ident_of_mem hk' hb] at h
+    have e : a.id = b.id := by simpa using h.1
+    exact ⟨(transport_of_mem hk hid' ha hb e).symm,
+      ids_transport hk hk' hid' ks ks' (fun k hk => hm k (List.mem_cons_of_mem _ hk))
+        (fun k hk => hm' k (List.mem_cons_of_mem _ hk)) h.2⟩
+
+theorem Forall2.imp_mem {α β : Type} {R S : α → β → Prop} {l1 : List α} {l2 : List β}
+    (h : Forall2 R l1 l2) (himp : ∀ a ∈ l1, ∀ b ∈ l2, R a b → S a b) : Forall2 S l1 l2 := by
+  induction h with
+  | nil => exact Forall2.nil
+  | cons hab _ ih =>
+    exact Forall2.cons (himp _ List.mem_cons_self _ List.mem_cons_self hab)
+      (ih (fun a ha b hb => himp a (List.mem_cons_of_mem _ ha) b (List.mem_cons_of_mem _ hb)))
+
 end C11
